@@ -56,14 +56,15 @@ def make_chain(rng, sched, k, total, chain_len):
 def scenario_chains(ck, cfg, seed, quick, idx):
     """control run, then a chain for every stop point and scheduler"""
     rng = random.Random(seed)
-    control = {'cfg': cfg, 'specs': [{'sched': 'batch', 'choices': [], 'stop': None}], 'seed': seed, 'argv': []}
+    control = {'cfg': cfg, 'specs': [{'sched': 'batch', 'choices': [], 'stop': None}], 'seed': seed,
+               'argv': ['-f'] if rng.random() < 0.15 else []}
     r = c06.run_scenario(ck, control, 'c%d-control' % idx)
     if r is None:
         return []
     probe, outputs, build_ok, observed = r
     ctl = observed[0]
     total = len(ctl.starts)
-    if total == 0 or total > (14 if quick else 40) or any(p['profile'] for p in probe.runs):
+    if total == 0 or total > (10 if quick else 40) or any(p['profile'] for p in probe.runs):
         ck.count('scenario:skipped-size')
         return []
     if ctl.status not in ('ok', 'failed'):
@@ -73,7 +74,9 @@ def scenario_chains(ck, cfg, seed, quick, idx):
         for k in range(1, total + 1):
             chain_len = 1 if rng.random() < 0.6 else rng.choice([2, 3])
             specs = make_chain(rng, sched, k, total, chain_len)
-            scen = {'cfg': cfg, 'specs': specs, 'seed': seed, 'argv': [], 'outputs': outputs, 'build_ok': build_ok}
+            scen = {'cfg': cfg, 'specs': specs, 'seed': seed, 'argv': list(control.get('argv', [])),
+                    'outputs': control['outputs'], 'raw': control['raw'], 'build_ok': build_ok,
+                    'hostile_applied': True}
             rr = c06.run_scenario(ck, scen, 'c%d-%s-%d' % (idx, sched[:2], k))
             if rr is None:
                 continue
@@ -92,8 +95,8 @@ def judge_items(ck, items):
         ops.append(dp.scenario_op('c08.sessions', probe, outputs, build_ok, specs))
     answers = ck.model(ops)
     for (scen, probe, outputs, build_ok, observed, ctl), ans in zip(items, answers):
-        inp = {'cfg': scen['cfg'], 'specs': scen['specs'], 'seed': scen['seed'], 'argv': [],
-               'outputs': outputs, 'build_ok': build_ok}
+        inp = {'cfg': scen['cfg'], 'specs': scen['specs'], 'seed': scen['seed'], 'argv': scen.get('argv', []),
+               'outputs': scen['outputs'], 'raw': scen.get('raw'), 'build_ok': build_ok}
         judge(ck, inp, probe, outputs, observed, ans, ctl)
 
 
@@ -301,6 +304,285 @@ BIG_KILL = [{'sig': 'KILL', 'runs': 2, 'inv': 2, 'k': 2, 'sched': 'batch', 'iter
             {'sig': 'KILL', 'runs': 2, 'inv': 2, 'k': 4, 'sched': 'round-robin', 'iters': 80}]
 
 
+# ---------------------------------------------------------------- torn tail
+def well_formed_rows(text):
+    """measurement rows a reader can attribute: 15 columns, numeric invocation / iteration / run id"""
+    out = []
+    for line in text.split('\n'):
+        if line == '' or line.startswith('#') or line == dp.HEADER:
+            continue
+        cols = line.split('\t')
+        if len(cols) == 15 and cols[0].isdigit() and cols[1].isdigit() and cols[14].isdigit():
+            out.append('\t'.join(cols[:-1]))
+    return sorted(out)
+
+
+def torn_tail_chains(ck, n_scen):
+    """A kill that tears the write of a data point: session 1 is stopped at the k-th start and the data file
+    is cut inside the *first* line of the last recorded invocation (that invocation is then not on disk, the
+    file ends without a newline) -- at every column boundary and inside fields.  Session 2 is interrupted
+    again after a few starts, session 3 runs to completion, session 4 is the re-run.  Oracle: the
+    well-formed measurement rows at the end equal the uninterrupted control's (the torn remainder may stay
+    as one unreadable line), no crash, the re-run starts nothing it should not.  Model: the sessions after
+    the cut start from the model's own file contents without that invocation's lines."""
+    rng = ck.rng
+    done, tries = 0, 0
+    firsts = []      # phase 1: interrupted first sessions
+    while done < n_scen and tries < n_scen * 8:
+        tries += 1
+        cfg = dp.gen_config(rng, {'max_exp': 1, 'max_inv': 2, 'builds': False})
+        seed = rng.randint(0, 10 ** 9)
+        control = {'cfg': cfg, 'specs': [{'sched': 'batch', 'choices': [], 'stop': None}], 'seed': seed, 'argv': []}
+        r = c06.run_scenario(ck, control, 'torn%d-control' % tries)
+        if r is None:
+            continue
+        probe, outputs, build_ok, observed = r
+        ctl = observed[0]
+        if len(probe.files) != 1 or len(probe.runs) < 2 or len(probe.runs) > 5 or len(ctl.starts) < 3 \
+                or ctl.status not in ('ok', 'failed'):
+            continue
+        done += 1
+        total = len(ctl.starts)
+        for k in sorted(rng.sample(range(2, total + 1), min(3, total - 1))):
+            sched1 = rng.choice(['round-robin', 'round-robin', 'batch', 'random'])
+            spec1 = {'sched': sched1, 'stop': k, 'choices': [rng.randint(0, 50) for _ in range(60)]}
+            first = {'cfg': cfg, 'specs': [spec1], 'seed': seed, 'argv': [], 'outputs': control['outputs'],
+                     'raw': control['raw'], 'build_ok': build_ok, 'hostile_applied': True}
+            tag = 'torn%d-k%d' % (tries, k)
+            r1 = c06.run_scenario(ck, first, tag)
+            if r1 is None:
+                continue
+            probe1, outs1, _bo, obs1 = r1
+            ob1 = obs1[0]
+            if ob1.status != 'aborted':
+                continue
+            last = None
+            for st in ob1.starts[:-1]:
+                if st[0] == 'r' and outs1[st[1]][st[2] - 1] is not None:
+                    last = st
+            if last is None:
+                continue
+            n_rows = sum(len(ms) for ms in outs1[last[1]][last[2] - 1])
+            text = ob1.files[0]
+            block = text.split('\n')[:-1][-n_rows:]
+            if not all(l.split('\t')[0] == str(last[2]) and l.split('\t')[5:14] == probe1.runs[last[1]]['cols']
+                       for l in block):
+                continue
+            spec1m = dict(spec1, order=[i for i in (ob1.order or []) if i is not None])
+            firsts.append({'cfg': cfg, 'seed': seed, 'control': control, 'ctl': ctl, 'probe': probe1, 'outs': outs1,
+                           'build_ok': build_ok, 'spec1': spec1, 'text': text, 'block': block, 'n_rows': n_rows,
+                           'wd': os.path.join(ck.scratch, tag), 'tries': tries, 'k': k,
+                           'op': dp.scenario_op('c08.sessions', probe1, outs1, build_ok, [spec1m])})
+    answers1 = ck.model([f['op'] for f in firsts])
+    chains = []      # phase 2: the sessions after the cut
+    for f, ans1 in zip(firsts, answers1):
+        model_lines = ans1['final'][0]
+        n_rows = f['n_rows']
+        if any(l[0] != 'M' for l in model_lines[-n_rows:]):
+            continue
+        contents = [model_lines[:-n_rows]]
+        text, block, probe1, outs1, build_ok = f['text'], f['block'], f['probe'], f['outs'], f['build_ok']
+        block_start = len(text) - sum(len(l) + 1 for l in block)
+        first_line = block[0]
+        bounds = [i for i, ch in enumerate(first_line) if ch == '\t']
+        cuts = sorted(set(bounds + [b + 1 for b in bounds[:3]] + [rng.randint(1, len(first_line) - 1) for _ in range(2)]))
+        cuts = rng.sample(cuts, min(6, len(cuts)))
+        for cut in cuts:
+            torn = text[:block_start + cut]
+            with open(os.path.join(f['wd'], probe1.files[0]), 'w', newline='') as fh:
+                fh.write(torn)
+            specs = [{'sched': rng.choice(SCHEDS), 'stop': rng.randint(2, 4)},
+                     {'sched': rng.choice(SCHEDS), 'stop': None}, {'sched': rng.choice(SCHEDS), 'stop': None}]
+            for sp in specs:
+                sp['choices'] = [rng.randint(0, 50) for _ in range(60)]
+            prev = [torn]
+            obs = []
+            for sp in specs:
+                script = dp.make_script(probe1, outs1, build_ok, stop=sp.get('stop'), raw=probe1.raw)
+                ob = dp.run_real_session(f['wd'], probe1, ['-s', sp['sched']], script,
+                                         random_choice=dp.choice_fn(sp['choices']) if sp['sched'] == 'random' else None)
+                ob.before = prev
+                prev = ob.files
+                obs.append(ob)
+                ck.impl_traces += 1
+            last_col = first_line[:cut].split('\t')[-1]
+            inp = {'torn_tail': True, 'cfg': f['cfg'], 'seed': f['seed'], 'first_session': f['spec1'],
+                   'cut_after': first_line[:cut], 'later_sessions': specs, 'raw': f['control']['raw'],
+                   'build_ok': build_ok}
+            ck.count('torn:last-complete-field-%s' % ('integer' if last_col.isdigit() else 'other'))
+            ck.case(nontrivial_key=('torn', f['tries'], f['k'], cut), sample={'cut_after': first_line[:cut],
+                                                                               'ends': [o.status for o in obs]})
+            mspecs = [dict(sp, order=[i for i in (ob.order or []) if i is not None]) for sp, ob in zip(specs, obs)]
+            op = dp.scenario_op('c08.sessions', probe1, outs1, build_ok, mspecs)
+            op['contents'] = contents
+            chains.append((inp, f, obs, op))
+    answers = ck.model([c[3] for c in chains])
+    for (inp, f, obs, _op), ans in zip(chains, answers):
+        probe1, outs1, ctl = f['probe'], f['outs'], f['ctl']
+        if 'err' in ans:
+            raise lib.InfraError('model rejected the torn-tail scenario: %s' % str(ans)[:300])
+        for si, (ob, ms) in enumerate(zip(obs, ans['sessions'])):
+            impl_end = {'ok': 'complete', 'failed': 'complete', 'aborted': 'interrupted'}.get(ob.status, ob.status)
+            kept = ob.files[0].startswith(ob.before[0])
+            lines_i, _m = dp.canon_lines(ob.files[0][len(ob.before[0]):] if kept else ob.files[0], probe1)
+            impl = {'end': impl_end, 'trace': ob.starts, 'appended': lines_i, 'prefix_kept': kept}
+            model = {'end': ms['end'], 'trace': ms['trace'], 'appended': ms['files'][0]['appended'],
+                     'prefix_kept': ms['files'][0]['prefix_kept']}
+            if impl != model:
+                what = [x for x in impl if impl[x] != model[x]]
+                ck.disagree('c08.sessions after a torn tail: session %d differs in %s' % (si + 2, what),
+                            dict(inp, session=si + 2), {x: impl[x] for x in what} | {'crash': ob.crash},
+                            {x: model[x] for x in what}, THEOREMS)
+        for si, ob in enumerate(obs):
+            if ob.crash or ob.status == 'ui_error':
+                ck.oracle_fail('no_crash', dict(inp, session=si + 2), {'status': ob.status, 'crash': ob.crash},
+                               {'history': 'torn_tail'})
+        final = obs[1]
+        got, want = well_formed_rows(final.files[0]), well_formed_rows(ctl.files[0])
+        if got != want:
+            cg, cw = collections.Counter(got), collections.Counter(want)
+            lost, dup = list((cw - cg).elements()), list((cg - cw).elements())
+            ck.oracle_fail('resume_multiset', inp, {'lost': lost[:4], 'duplicated': dup[:4],
+                                                    'n_got': len(got), 'n_want': len(want)},
+                           {'kind': 'lost' if lost and not dup else 'duplicated' if dup and not lost else 'both',
+                            'history': 'torn_tail'})
+        rer = obs[2]
+        bad = [st for st in rer.starts if st[0] == 'r' and outs1[st[1]][st[2] - 1] is not None]
+        if bad or rer.files != final.files:
+            ck.oracle_fail('rerun_noop', dict(inp, session=4), {'starts': bad[:4]},
+                           {'what': 'starts' if bad else 'bytes', 'history': 'torn_tail'})
+
+
+# ---------------------------------------------------------------- parallel scheduler, Ctrl-C
+def parallel_interrupt_slice(ck, n):
+    """>= 2 non-exclusive runs under the ParallelScheduler (2-3 worker threads), runs that tolerate time-outs
+    (`ignore_timeouts: true` with a `max_invocation_time`) or a session with `--faulty`: KeyboardInterrupt
+    reaches the main thread while the k-th benchmark process has printed its first data point but not the
+    others; ReBench kills it (exit -9, the time-out code).  What a killed process printed is not the result
+    of an invocation: nothing of it may be recorded, and the resumed session has to run that invocation.
+    Oracle: final rows equal the uninterrupted control's, no recorded invocation is started again, the
+    interrupted one is; re-run no-op."""
+    import random as _random
+    rng = ck.rng
+    for idx in range(n):
+        n_bench = rng.randint(2, 4)
+        n_inv = rng.randint(1, 2)
+        mode = rng.choice(['ignore_timeouts', 'ignore_timeouts', 'faulty', 'plain'])
+        suite = {'gauge_adapter': 'RebenchLog',
+                 'command': '%(benchmark)s c%(cores)s i%(input)s v%(variable)s t%(tag)s w%(warmup)s n%(invocation)s',
+                 'benchmarks': ['P%d' % b for b in range(n_bench)]}
+        if mode == 'ignore_timeouts':
+            suite['ignore_timeouts'] = True
+            suite['max_invocation_time'] = 600
+        cfg = {'default_experiment': 'all', 'default_data_file': 'par.data', 'runs': {'invocations': n_inv},
+               'benchmark_suites': {'S0': suite},
+               'executors': {'E0': {'path': '.', 'executable': 'exe0', 'execute_exclusively': False}},
+               'experiments': {'X0': {'suites': ['S0'], 'executions': ['E0']}}}
+        argv = ['-f'] if mode == 'faulty' else []
+        wd = os.path.join(ck.scratch, 'parint%d' % idx)
+        os.makedirs(wd)
+        drive.write_config(wd, cfg)
+        probe = dp.Probe(wd, cfg, argv)
+        outputs = dp.gen_outputs(_random.Random(rng.randint(0, 10 ** 9)), probe, fail_rate=0.0)
+        outputs = [[(o if len(o) >= 2 else o + o) for o in per] for per in outputs]   # >= 2 data points each
+        total = len(probe.runs) * n_inv
+        k = rng.randint(1, total)
+        cpu = rng.choice([5, 8])
+        # schedule: usually the interrupt finds the main thread waiting for its workers; 'start-window': it
+        # arrives while the first worker already runs its benchmark and the main thread starts the second
+        window = rng.random() < 0.35
+        if window:
+            k = 1
+        state = {'n': 0, 'lock': __import__('threading').Lock(), 'interrupted': None}
+
+        def script(rec, interrupt_at=None, probe=probe):
+            with state['lock']:
+                state['n'] += 1
+                n_now = state['n']
+            c = dp.classify_start(probe, rec)
+            if c[0] != 'r':
+                return drive.Outcome(1, 'unexpected start')
+            o = outputs[c[1]][c[2] - 1]
+            text = dp.render_rebench_log(probe.runs[c[1]]['bench_name'], o)
+            if interrupt_at is not None and n_now == interrupt_at:
+                state['interrupted'] = (c[1], c[2])
+                partial = dp.render_rebench_log(probe.runs[c[1]]['bench_name'], o[:1])
+                return drive.Outcome(interrupt=True, out=partial)
+            return drive.Outcome(0, text)
+        # control: sequential, uninterrupted, its own directory
+        wdc = os.path.join(ck.scratch, 'parint%d-control' % idx)
+        os.makedirs(wdc)
+        drive.write_config(wdc, cfg)
+        probec = dp.Probe(wdc, cfg, argv)
+        ctl = dp.run_real_session(wdc, probec, argv, lambda rec: script(rec, probe=probec))
+        state['n'] = 0
+        from rebench import executor as rb_exec
+        orig_start = rb_exec.BenchmarkThread.start
+
+        def start_hook(self):
+            orig_start(self)
+            if window and getattr(self, '_id', None) == 0:
+                deadline = time.time() + 0.3       # the interrupt, if it comes now, is raised right here
+                while time.time() < deadline:
+                    time.sleep(0.005)
+        rb_exec.BenchmarkThread.start = start_hook
+        try:
+            ob1 = dp.run_real_session(wd, probe, argv, lambda rec: script(rec, interrupt_at=k), cpu_count=cpu)
+        finally:
+            rb_exec.BenchmarkThread.start = orig_start
+        ob1.before = ['']
+        state['n'] = 0
+        ob2 = dp.run_real_session(wd, probe, ['-s', rng.choice(SCHEDS)] + argv, lambda rec: script(rec))
+        state['n'] = 0
+        ob3 = dp.run_real_session(wd, probe, argv, lambda rec: script(rec))
+        ck.impl_traces += 4
+        inp = {'parallel_interrupt': True, 'cfg': cfg, 'argv': argv, 'cpu_count': cpu, 'interrupt_at_start': k,
+               'mode': mode, 'outputs': outputs,
+               'schedule': 'interrupt while the second worker is being started' if window
+               else 'interrupt while the main thread waits for the workers'}
+        ck.count('parallel-interrupt:schedule-%s' % ('start-window' if window else 'join'))
+        ck.count('parallel-interrupt:%s' % mode)
+        ck.count('parallel-interrupt:first-session-%s' % ob1.status)
+        ck.case(nontrivial_key=('parint', idx, mode, k, cpu), sample={'mode': mode, 'k': k, 'threads': int(cpu / 2.5),
+                                                                      'ends': [ob1.status, ob2.status, ob3.status]})
+        sig = {'scheduler': 'parallel', 'mode': mode}
+        for si, ob in enumerate((ob1, ob2, ob3)):
+            if ob.crash:
+                ck.oracle_fail('no_crash', dict(inp, session=si), {'crash': ob.crash}, dict(sig, exception=ob.crash[0]))
+        if ob1.late_starts or ob1.threads_left or ob1.workers_alive_at_return:
+            ck.oracle_fail('stopped_means_stopped', inp, {'started_after_the_session_returned': ob1.late_starts[:5],
+                                                          'workers_running_when_the_session_returned':
+                                                              ob1.workers_alive_at_return,
+                                                          'threads_still_running': ob1.threads_left},
+                           dict(sig, schedule='start-window' if window else 'join'))
+        if ob1.status == 'aborted' and ob1.exit != 2:
+            ck.oracle_fail('exit_status_aborted', inp, {'exit': ob1.exit}, sig)
+        # nothing of the killed process's output is on disk after the interrupted session
+        interrupted = state['interrupted']
+        if interrupted is not None:
+            run = probe.runs[interrupted[0]]
+            leaked = [r for r in c06.dp_rows(ob1.files[0], False)
+                      if r[0] == str(interrupted[1]) and r[5:14] == run['cols']]
+            if leaked:
+                ck.oracle_fail('interrupted_not_recorded', inp, {'invocation': list(interrupted), 'rows': leaked[:3]}, sig)
+            restarted = [s for s in ob2.starts if s[0] == 'r' and (s[1], s[2]) == interrupted]
+            if ob1.status == 'aborted' and ob2.status in ('ok', 'failed') and not restarted:
+                ck.oracle_fail('interrupted_started_again', inp, {'invocation': list(interrupted),
+                                                                  'resumed_starts': ob2.starts[:6]}, sig)
+        got, want = well_formed_rows(ob2.files[0]), well_formed_rows(ctl.files[0])
+        if ob2.status in ('ok', 'failed') and got != want:
+            cg, cw = collections.Counter(got), collections.Counter(want)
+            lost, dup = list((cw - cg).elements()), list((cg - cw).elements())
+            ck.oracle_fail('resume_multiset', inp, {'lost': lost[:4], 'duplicated': dup[:4], 'n_got': len(got),
+                                                    'n_want': len(want)},
+                           dict(sig, kind='lost' if lost and not dup else 'duplicated' if dup and not lost else 'both'))
+        if ob3.starts or ob3.files != ob2.files:
+            ck.oracle_fail('rerun_noop', dict(inp, session=2), {'starts': ob3.starts[:4]},
+                           dict(sig, what='starts' if ob3.starts else 'bytes'))
+        shutil.rmtree(wd, ignore_errors=True)
+        shutil.rmtree(wdc, ignore_errors=True)
+
+
 def run(ck):
     quick = ck.tier == 'quick'
     ck.rule = ('every stop point k of every generated scenario x {batch, round-robin, random}; chains of 1-3 '
@@ -336,6 +618,10 @@ def run(ck):
             items = []
     if items:
         judge_items(ck, items)
+    parallel_interrupt_slice(ck, 6 if quick else 80)
+    _t = time.time()
+    torn_tail_chains(ck, 3 if quick else 40)
+    ck.notes.append('torn-tail slice %.1fs' % (time.time() - _t))
     if not quick:
         cli_sessions(ck, 100, BIG_KILL)
     else:
@@ -344,11 +630,19 @@ def run(ck):
 
 def replay(ck, data):
     inp = data['input']
+    if inp.get('parallel_interrupt'):
+        ck.notes.append('parallel-interrupt replays re-run the slice from the seed')
+        parallel_interrupt_slice(ck, 6)
+        return
+    if inp.get('torn_tail'):
+        ck.notes.append('torn-tail replays re-run the slice from the seed')
+        torn_tail_chains(ck, 3)
+        return
     if inp.get('cli'):
         ck.notes.append('CLI replays re-run the signal sessions from the seed')
         cli_sessions(ck, 6, BIG_KILL)
         return
-    scen = {k: inp[k] for k in ('cfg', 'specs', 'seed', 'argv', 'outputs', 'build_ok') if k in inp}
+    scen = {k: inp[k] for k in ('cfg', 'specs', 'seed', 'argv', 'outputs', 'raw', 'build_ok') if k in inp}
     if scen.get('outputs'):
         scen['outputs'] = [[None if o is None else [[tuple(m) for m in d] for d in o] for o in per]
                            for per in scen['outputs']]
